@@ -18,9 +18,15 @@ def run_job(job):
     case = job["case"]
     S = NatSpec(job["inputs"])
     import dimarray
+    import os
+    want = os.environ.get("DVERIF_REPO", "/repo")
+    if not os.path.abspath(dimarray.__file__).startswith(os.path.abspath(want) + os.sep):
+        raise RuntimeError("native runner imported dimarray from %s, expected %s" % (dimarray.__file__, want))
     res = {"case": case.get("name"), "contract": job["contract"]}
     try:
         env = contract.setup(S, case)
+        env.setdefault("case", case)
+        env.setdefault("S", S)
     except PreconditionNotMet as e:
         res["outcome"] = "precondition-not-met"
         res["reason"] = str(e)
